@@ -70,6 +70,7 @@ public:
 	size_t get_size(void *pointer);
 
 	size_t numUsedPages() {
+		unique_lock<Mutex> tree_guard(_tree_mutex);
 		return _usedPages;
 	}
 
